@@ -17,7 +17,11 @@ fn init() {
     static ONCE: std::sync::Once = std::sync::Once::new();
     // replaces libfuzzer-sys' abort-on-panic hook: panics are caught by mon::guard, classified,
     // and reported through finish() with the same signatures the engines use
-    ONCE.call_once(mon::install_panic_hook);
+    ONCE.call_once(|| {
+        // the fuzz build is an ASan build: same CPU-budget scaling as the asan variant
+        mon::set_profile("asan");
+        mon::install_panic_hook();
+    });
 }
 
 fn finish(rep: Report) {
@@ -96,6 +100,48 @@ pub fn parity(rep: &mut Report, data: &[u8]) -> bool {
     let replay = J::obj().set("flac", J::hex(data)).set("origin", "fuzz artifact");
     c03::judge_valid_stream(rep, "reference-valid fuzz input", data, &expect, &params, &replay, false);
     true
+}
+
+/// Custom mutator of the decode target.  libFuzzer's byte mutations almost always break a frame's
+/// CRC-16, after which the decoder never looks at what was changed; three times out of four this
+/// mutator therefore keeps the checksums of every frame consistent with the mutated bytes (frame
+/// extents taken from the reference decoder's table of the input before mutation).
+pub fn mutate_decode(data: &mut [u8], size: usize, max_size: usize, seed: u32, default: impl Fn(&mut [u8], usize, usize) -> usize) -> usize {
+    use flacref::crc::{crc16, crc8};
+    let mut rng = flacref::rng::Rng::new(seed as u64 ^ 0xF0221);
+    let style = rng.below(4);
+    if style == 0 || size < 50 {
+        return default(data, size, max_size);
+    }
+    let frames = match decode_file(&data[..size], &Rules::LENIENT) {
+        Ok(d) if !d.frames.is_empty() => d.frames,
+        _ => return default(data, size, max_size),
+    };
+    if style == 1 {
+        // our own biased mutation inside one frame, checksums repaired
+        if let Some((out, _)) = c04::crc_repaired_mutation(&mut rng, &data[..size], &frames) {
+            data[..size].copy_from_slice(&out);
+        }
+        return size;
+    }
+    // libFuzzer's mutation (dictionary, compare-guided ...), then repair when the layout is unchanged
+    let before = data[..size].to_vec();
+    let n = default(data, size, max_size);
+    if n != size {
+        return n;
+    }
+    for f in &frames {
+        let end = f.offset + f.len;
+        if end > size || f.len < f.header_len + 2 || data[f.offset..end] == before[f.offset..end] {
+            continue;
+        }
+        let hend = f.offset + f.header_len - 1;
+        data[hend] = crc8(&data[f.offset..hend]);
+        let c = crc16(&data[f.offset..end - 2]);
+        data[end - 2] = (c >> 8) as u8;
+        data[end - 1] = c as u8;
+    }
+    n
 }
 
 /// C12 monitors on every metadata entry point, C11 re-read of whatever was accepted.
@@ -187,17 +233,31 @@ pub fn emit_corpus(ctx: &crate::Ctx, rep: &mut Report) {
 /// violations through the normal report, so that the verdict does not depend on the fuzz build.
 pub fn replay(ctx: &crate::Ctx, rep: &mut Report) {
     let target = arg(ctx, "--target").unwrap_or("decode").to_string();
+    let mut files: Vec<String> = vec![];
     let mut it = ctx.extra.iter();
     while let Some(a) = it.next() {
-        if a != "--file" {
-            continue;
+        if a == "--file" {
+            if let Some(f) = it.next() {
+                files.push(f.clone());
+            }
+        } else if a == "--dir" {
+            // every file of a directory (the corpus libFuzzer evolved), sharded by name order
+            if let Some(d) = it.next() {
+                let mut names: Vec<String> = std::fs::read_dir(d).map(|r| r.filter_map(|e| e.ok()).map(|e| e.path().to_string_lossy().into_owned()).collect()).unwrap_or_default();
+                names.sort();
+                files.extend(names.into_iter().enumerate().filter(|(i, _)| ctx.mine(*i as u64)).map(|(_, n)| n));
+            }
         }
-        let Some(f) = it.next() else { break };
+    }
+    for f in &files {
         let Ok(data) = std::fs::read(f) else {
             rep.inconclusive.push(format!("artifact {f} unreadable"));
             continue;
         };
-        rep.count("artifact", f.rsplit('/').next().unwrap_or(f).to_string());
+        if files.len() <= 64 {
+            rep.count("artifact", f.rsplit('/').next().unwrap_or(f).to_string());
+        }
+        rep.count_n("replayed_units", "n", 1);
         let before = rep.violations.len();
         match target.as_str() {
             "decode" => run_decode(rep, &data),
@@ -207,7 +267,7 @@ pub fn replay(ctx: &crate::Ctx, rep: &mut Report) {
             _ => run_cue(rep, &data),
         }
         for v in rep.violations[before..].iter_mut() {
-            v.detail = format!("[artifact {f}] {}", v.detail);
+            v.detail = format!("[unit {f}] {}", v.detail);
         }
     }
 }
